@@ -720,15 +720,24 @@ func (c *Client) receipts(ctx context.Context, url string, bm blockmap, start, l
 			return fmt.Errorf("rpc=%s %w", tag, resps[i].Error)
 		}
 	}
-	for i := range resps {
+	if len(resps) < len(reqs) {
+		const tag = "eth_getBlockReceipts: requested %d blocks got %d responses"
+		return fmt.Errorf(tag, limit, len(resps))
+	}
+	for i := range reqs {
+		blockNum := start + uint64(i)
+		if resps[i].Result == nil {
+			return fmt.Errorf("eth_getBlockReceipts: missing result for block %d", blockNum)
+		}
 		if len(resps[i].Result) == 0 {
-			slog.ErrorContext(ctx, "no rpc error but empty result")
+			// a block without transactions
 			continue
 		}
-		blockNum := uint64(resps[i].Result[0].BlockNum)
-		if blockNum < start || blockNum > start+limit {
-			const tag = "eth_getBlockReceipts out of range block. num=%d start=%d lim=%d"
-			return fmt.Errorf(tag, blockNum, start, limit)
+		for j := range resps[i].Result {
+			if got := uint64(resps[i].Result[j].BlockNum); got != blockNum {
+				const tag = "eth_getBlockReceipts: receipt of block %d in the response for block %d"
+				return fmt.Errorf(tag, got, blockNum)
+			}
 		}
 		b, ok := bm[blockNum]
 		if !ok {
